@@ -113,6 +113,10 @@ func init() {
 			if n%7 == 3 {
 				p.Cfg.Extra = map[string]int64{"collide": 1} // two configured keys with one 32-bit key ID
 			}
+			if n%7 == 6 && len(p.Cfg.Logs) >= 2 {
+				// two logs on one key whose origins differ by a trailing slash only
+				p.Cfg.Logs[1].Origin, p.Cfg.Logs[1].Key = p.Cfg.Logs[0].Origin+"/", p.Cfg.Logs[0].Key
+			}
 			if n%7 == 5 {
 				// origins shaped like the shards of one log: "<key name> - <shard number>" (several shards may share the key)
 				for i := range p.Cfg.Logs {
